@@ -182,7 +182,14 @@ def check_stream(role, make, data, label, max_cuts):
         cutsets += [[a, b] for a in range(0, n + 1, 1) for b in range(a, n + 1, 3)]
     elif max_cuts >= 2:
         step = max(1, n // 25)
-        cutsets += [[a, b] for a in range(0, n + 1, step) for b in range(a, n + 1, step)]
+        # coarse grid plus the neighbourhood of every frame boundary (a cut just inside the next header is where buffering code differs)
+        cand = set(range(0, n + 1, step))
+        pos = 0
+        for fl in frames:
+            pos += fl
+            cand |= {c for c in (pos - 2, pos - 1, pos, pos + 1, pos + 2, pos + 3, pos + 5) if 0 <= c <= n}
+        cand = sorted(cand)
+        cutsets += [[a, b] for a in cand for b in cand if a <= b]
     for cuts in cutsets:
         bounds = [0] + cuts + [n]
         chunks = [data[bounds[i]:bounds[i + 1]] for i in range(len(bounds) - 1)]
@@ -258,6 +265,10 @@ def build_tasks(tier):
     T.append(("server", "server", reqs[0], "bind", 2))
     T.append(("server", "server", reqs[1] + reqs[2], "search+extended", 2))
     T.append(("server", "server", reqs[2] + reqs[2].replace(b"\x02\x01\x03", b"\x02\x01\x05") + reqs[1], "three requests", 2))
+    # a long message followed by short ones (a receiver that remembers how much the long one needed must forget it again)
+    long_req = bytes(ExtendedRequest(message_id=7, controls=[], name="1.2.3", value=b"v" * 180).pack(OPT))
+    short_req = bytes(ExtendedRequest(message_id=8, controls=[], name="1.2", value=None).pack(OPT))
+    T.append(("server", "server", long_req + short_req + short_req.replace(b"\x02\x01\x08", b"\x02\x01\x09"), "long then two short requests", 2))
     T.append(("client", "client", resps[0], "bind response", 2))
     T.append(("client", "searching", resps[1] + resps[2] + resps[3] + resps[4], "search responses", 2))
     ad = b"\x30\x84" + (len(resps[0]) - 2).to_bytes(4, "big") + resps[0][2:]
